@@ -99,20 +99,29 @@ def cases(draw, tier):
     else:
         tstates = draw(gen_prog.frame_times(frame))
     tstates += frame * draw(st.sampled_from([0, 0, 1, 240, 241]))       # 240 frames > 2^24 T-states
-    N = draw(st.integers(2, 60 if tier == 'quick' else 3000))
-    if N <= 14:
-        splits = list(range(1, N))
+    # 'long' runs: enough operations (a HALT wait counts one per 4 T-states) for the leg after the split to reach the
+    # next frame interrupt from any frame position, so that a frame position that is saved or restored wrongly shows
+    # up as an interrupt accepted at the wrong time even when it is wrong in the same way in both runs' final files
+    long_run = draw(st.sampled_from([0, 0, 0, 1]))
+    if long_run:
+        N = draw(st.integers(2000, 20000))
+        splits = sorted(set(draw(st.lists(st.integers(1, N - 1), min_size=1, max_size=4 if tier == 'quick' else 12))))
     else:
-        splits = sorted(set(draw(st.lists(st.integers(1, N - 1), min_size=1, max_size=12 if tier == 'quick' else 60))))
+        N = draw(st.integers(2, 60 if tier == 'quick' else 3000))
+        if N <= 14:
+            splits = list(range(1, N))
+        else:
+            splits = sorted(set(draw(st.lists(st.integers(1, N - 1), min_size=1, max_size=12 if tier == 'quick' else 60))))
     regs = draw(gen_prog.registers())
     regs['SP'] = draw(st.sampled_from([0xFF00, 0x5C00, 0xBFFE, 0x4002]))
     regs['I'] = draw(st.sampled_from([0x3F, 0x90, 0x40, 0x00]))
     return {
         'machine': machine, 'org': org, 'code': code, 'kinds': kinds,
         'fill_seed': draw(st.integers(0, 2 ** 32 - 1)), 'fill_style': draw(st.sampled_from([0, 0, 1])),
-        'regs': regs, 'im': draw(st.integers(0, 2)), 'iff': draw(st.integers(0, 1)), 'tstates': tstates,
+        'regs': regs, 'im': draw(st.integers(0, 2)), 'iff': 1 if long_run else draw(st.integers(0, 1)), 'tstates': tstates,
         'border': draw(st.integers(0, 7)), 'o7ffd': draw(st.sampled_from([0, 0x10, 7, 0x11])) if machine == '128K' else 0,
-        'N': N, 'splits': splits, 'fmt': draw(st.sampled_from(['szx', 'z80'])), 'cmio': draw(st.booleans()),
+        'N': N, 'splits': splits, 'fmt': draw(st.sampled_from(['szx', 'z80'])), 'start_fmt': draw(st.sampled_from(['szx', 'z80'])),
+        'cmio': draw(st.booleans()),
         'python': draw(st.sampled_from([False, False, False, True])) if tier == 'quick' else draw(st.booleans()),
     }
 
@@ -143,7 +152,9 @@ def write_start(s, case):
     state = ['im=%d' % case['im'], 'iff=%d' % case['iff'], 'tstates=%d' % case['tstates'], 'border=%d' % case['border']]
     if case['machine'] == '128K':
         state.append('7ffd=%d' % case['o7ffd'])
-    fname = s.path('start.szx')
+    # the start file's format is drawn independently of the format under test, so that a defect of one writer cannot
+    # move the start state out of the region where the same defect would show at the split
+    fname = s.path('start.' + case.get('start_fmt', 'szx'))
     write_snapshot(fname, ram, registers, state, case['machine'])
     return fname
 
@@ -215,6 +226,8 @@ def oracle(case, rec=None):
                 klass = ['%s:%s%s' % (case['machine'], fmt, ':cmio' if case['cmio'] else ''), 'python' if case['python'] else 'C'] + ['tpl:' + k for k in set(case['kinds'])]
                 if case['tstates'] >= 2 ** 24:
                     klass.append('T>=2^24')
+                if case['N'] >= 2000:
+                    klass.append('long-run')
                 rec.case((_key(case), n1), nt, klass, _sample(case, n1))
 
 
